@@ -55,6 +55,112 @@ struct Pod
   uint8_t c;
 };
 
+struct Pod3
+{
+  uint8_t a, b, c;
+  bool operator==(const Pod3 &o) const { return a == o.a && b == o.b && c == o.c; }
+};
+struct Pod24
+{
+  double a, b, c;
+};
+struct alignas(32) Pod32a
+{
+  int32_t a, b;
+};
+static_assert(sizeof(Pod3) == 3 && sizeof(Pod24) == 24 && sizeof(Pod32a) == 32 && alignof(Pod32a) == 32, "struct layouts the specification assumes");
+
+// arithmetic values the specification names by a string: exact bit patterns
+template <typename T>
+struct Named
+{
+  const char *name;
+  T value;
+};
+static const Named<double> kF64[] = {{"0.1", 0.1}, {"1/3", 1.0 / 3.0}, {"subnormal", 4.9406564584124654e-324 * 1234567.0}, {"max", 1.7976931348623157e308},
+                                     {"min-normal", 2.2250738585072014e-308}, {"-inf", -HUGE_VAL}, {"-1e300", -1e300}};
+static const Named<float> kF32[] = {{"0.1", 0.1f}, {"subnormal", 1.401298464324817e-45f * 12345.0f}, {"max", 3.402823466e+38f}, {"-inf", -HUGE_VALF}};
+static const Named<uint64_t> kU64[] = {{"2^31", 1ULL << 31}, {"2^32-1", (1ULL << 32) - 1}, {"2^32", 1ULL << 32}, {"2^32+1", (1ULL << 32) + 1},
+                                       {"2^63", 1ULL << 63}, {"SIZE_MAX", ~0ULL}, {"SIZE_MAX/4", ~0ULL / 4}};
+static const Named<int32_t> kI32[] = {{"INT_MIN", (int32_t)0x80000000}, {"INT_MAX", 0x7fffffff}, {"-1", -1}};
+
+template <typename T, size_t N>
+static T byName(const Named<T> (&tab)[N], const std::string &name)
+{
+  for (size_t i = 0; i < N; ++i)
+    if (name == tab[i].name) return tab[i].value;
+  throw std::logic_error("driver: unknown value name " + name);
+}
+template <typename T, size_t N>
+static Json nameOf(const Named<T> (&tab)[N], const T &x)
+{
+  for (size_t i = 0; i < N; ++i)
+    if (std::memcmp(&tab[i].value, &x, sizeof(T)) == 0) return Json(tab[i].name); // the same bits
+  unsigned long long bits = 0;
+  std::memcpy(&bits, &x, sizeof(T) < sizeof bits ? sizeof(T) : sizeof bits);
+  char buf[40];
+  snprintf(buf, sizeof buf, "unmapped:0x%llx", bits);
+  return Json(std::string(buf));
+}
+
+// formula-defined content (Stream!GByte): element i is built from the byte (i * k + b) % 256
+struct Gen
+{
+  size_t n, k, b;
+  Gen(const Json &g) : n((size_t)g["n"].num()), k((size_t)g["k"].num()), b((size_t)g["b"].num()) {}
+  uint8_t byte(size_t i) const { return (uint8_t)((i * k + b) % 256); }
+  std::string str(size_t n_) const
+  {
+    std::string x(n_, '\0');
+    for (size_t i = 0; i < n_; ++i) x[i] = (char)byte(i);
+    return x;
+  }
+  std::vector<uint8_t> bytes() const
+  {
+    std::vector<uint8_t> x(n);
+    for (size_t i = 0; i < n; ++i) x[i] = byte(i);
+    return x;
+  }
+  std::vector<int> ints() const
+  {
+    std::vector<int> x(n);
+    for (size_t i = 0; i < n; ++i) x[i] = (int)byte(i) - 128;
+    return x;
+  }
+  std::vector<Pod3> pod3s() const
+  {
+    std::vector<Pod3> x(n);
+    for (size_t i = 0; i < n; ++i) x[i] = Pod3{byte(3 * i), byte(3 * i + 1), byte(3 * i + 2)};
+    return x;
+  }
+  std::vector<std::string> strs() const
+  {
+    std::vector<std::string> x(n);
+    for (size_t i = 0; i < n; ++i) {
+      x[i].resize(i % 3);
+      for (size_t j = 0; j < i % 3; ++j) x[i][j] = (char)byte(i + j);
+    }
+    return x;
+  }
+};
+// what is reported for a large value read back: its length, whether it equals the object written, first / last / sum
+template <typename V, typename F>
+static Json projection(const V &got, const V &want, F elem)
+{
+  Json o = Json::object();
+  o.set("n", (long long)got.size());
+  o.set("eq", got == want);
+  long long sum = 0;
+  for (size_t i = 0; i < got.size(); ++i) sum += elem(got[i]);
+  o.set("first", got.empty() ? -1000LL : (long long)elem(got[0]));
+  o.set("last", got.empty() ? -1000LL : (long long)elem(got[got.size() - 1]));
+  o.set("sum", sum);
+  return o;
+}
+static long long elemU8(uint8_t x) { return x; }
+static long long elemCh(char x) { return (unsigned char)x; }
+static long long elemInt(int x) { return x; }
+
 static Json num(size_t v) { return v <= 0x7fffffffULL ? Json((long long)v) : Json(-1); } // -1: does not fit a model integer
 
 static std::vector<int> ints(const Json &a)
@@ -130,11 +236,45 @@ struct StreamWorld : IWorld
     return a;
   }
 
-  static void emit(const Json &item, WriteStream &out)
+  // self: what "the writer's own buffer" is for this stream (item kind selfbuf)
+  static void emit(const Json &item, WriteStream &out, const AbstractArray<uint8_t> *self = nullptr)
   {
     const std::string &t = item["t"].str();
     const Json &v = item["v"];
-    if (t == "u8") out << (uint8_t)v.num();
+    if (t == "gbstr") out << Gen(v).str(Gen(v).n);
+    else if (t == "gvi") out << Gen(v).ints();
+    else if (t == "graw") {
+      std::vector<uint8_t> b = Gen(v).bytes();
+      out.write(b.data(), b.size());
+    } else if (t == "gvs") out << Gen(v).strs();
+    else if (t == "gu8burst") {
+      Gen g(v);
+      for (size_t i = 0; i < g.n; ++i) out << g.byte(i); // n separate writes
+    } else if (t == "gvpod3") out << Gen(v).pod3s();
+    else if (t == "gOwnedArray<int>") {
+      std::vector<int> x = Gen(v).ints();
+      OwnedArray<int> a(x);
+      out << a;
+    } else if (t == "selfbuf") {
+      if (!self) throw std::runtime_error("driver: no own buffer for this stream");
+      out << *self; // for a BufferWriter: its own shared buffer, read while the writer appends to it
+    } else if (t == "pod3") {
+      Pod3 p = {(uint8_t)v[0].num(), (uint8_t)v[1].num(), (uint8_t)v[2].num()};
+      out << p;
+    } else if (t == "pod24") {
+      Pod24 p = {(double)v[0].num() / 8.0, (double)v[1].num() / 8.0, (double)v[2].num() / 8.0};
+      out << p;
+    } else if (t == "pod32a") {
+      Pod32a p;
+      std::memset(&p, 0, sizeof p);
+      p.a = (int32_t)v[0].num();
+      p.b = (int32_t)v[1].num();
+      out << p;
+    } else if (t == "f64x") out << byName(kF64, v.str());
+    else if (t == "f32x") out << byName(kF32, v.str());
+    else if (t == "u64x") out << (size_t)byName(kU64, v.str());
+    else if (t == "i32x") out << byName(kI32, v.str());
+    else if (t == "u8") out << (uint8_t)v.num();
     else if (t == "i32") out << (int32_t)v.num();
     else if (t == "u64") out << (size_t)((size_t)v.num() * 0x100000001ULL);
     else if (t == "f64") out << (double)((double)v.num() / 8.0);
@@ -196,10 +336,19 @@ struct StreamWorld : IWorld
 
   std::vector<Json> written; // the items, for the reader-buffer kind "fixedwriter"
 
+  // a second writer / calculator pair, used alternately with the first by the same thread
+  BufferWriter w2;
+  WriteSizeCalculator calc2;
+  std::unique_ptr<OwnedArray<uint8_t>> snapshot; // the bytes written before the current item (for selfbuf on the other streams)
+
   void write(const Json &item)
   {
-    emit(item, w);
-    emit(item, calc);
+    const bool self = item["t"].str() == "selfbuf";
+    if (self) snapshot.reset(new OwnedArray<uint8_t>(w.buffer->data(), w.buffer->size()));
+    emit(item, calc, snapshot.get());
+    emit(item, w, w.buffer.get());
+    emit(item, calc2, snapshot.get());
+    emit(item, w2, w2.buffer.get());
     written.push_back(item);
   }
 
@@ -215,7 +364,10 @@ struct StreamWorld : IWorld
       // every item again, into a FixedBufferWriter whose capacity is exactly the bytes written:
       // the reader reads (the first k bytes of) that writer's buffer
       FixedBufferWriter fw(total);
-      for (const Json &it : written) emit(it, fw);
+      for (const Json &it : written) {
+        auto sofar = fw.getWrittenView();
+        emit(it, fw, sofar.get());
+      }
       if (fw.available() != 0) throw std::runtime_error("driver: the FixedBufferWriter holds fewer bytes than the BufferWriter");
       rbuf = std::make_shared<FixedArray<uint8_t>::View>(fw.buffer, 0, k);
     } else if (rbufKind == "direct" && k == total) {
@@ -234,13 +386,13 @@ struct StreamWorld : IWorld
   }
 
   template <typename T>
-  Json viewToVec(size_t count)
+  std::vector<T> viewToVec(size_t count)
   {
     // size_t n; buf >> n; getView(n * sizeof(T)): the zero-copy way to read an array
     auto view = cur->getView<uint8_t>(count * sizeof(T));
     std::vector<T> out(count);
     if (count) std::memcpy(out.data(), view->data(), count * sizeof(T));
-    return arr(out);
+    return out;
   }
 
   // ---- destinations of operator>>: one scratch object per destination type, REUSED across the
@@ -308,6 +460,93 @@ struct StreamWorld : IWorld
     const std::string &t = arg["t"].str();
     const std::string &via = arg["via"].str();
     BufferReader &r = *cur;
+    if (arg.has("g") && arg["g"].type == Json::Obj) {
+      // a formula-defined item: read it into a new object, compare with the object that was written
+      const Gen g(arg["g"]);
+      if (t == "gbstr") { std::string x; r >> x; return projection(x, g.str(g.n), elemCh); }
+      if (t == "gvi") { std::vector<int> x; r >> x; return projection(x, g.ints(), elemInt); }
+      if (t == "graw") {
+        std::vector<uint8_t> x;
+        if (via == "view") {
+          auto view = r.getView<uint8_t>(g.n);
+          x.assign(view->begin(), view->end());
+        } else {
+          x.resize(g.n);
+          r.read(x.data(), g.n);
+        }
+        return projection(x, g.bytes(), elemU8);
+      }
+      if (t == "gu8burst") {
+        std::vector<uint8_t> x;
+        for (size_t i = 0; i < g.n; ++i) { uint8_t c; r >> c; x.push_back(c); } // n separate reads
+        return projection(x, g.bytes(), elemU8);
+      }
+      if (t == "gOwnedArray<int>") {
+        std::vector<int> x;
+        if (via == "view") { size_t n; r >> n; x = viewToVec<int>(n); }
+        else r >> x;
+        return projection(x, g.ints(), elemInt);
+      }
+      if (t == "gvpod3") {
+        std::vector<Pod3> x; r >> x;
+        const std::vector<Pod3> want = g.pod3s();
+        Json o = Json::object();
+        o.set("n", (long long)x.size());
+        o.set("eq", x == want);
+        long long sum = 0;
+        for (auto &p : x) sum += p.a + p.b + p.c;
+        o.set("first", x.empty() ? -1000LL : (long long)x.front().a);
+        o.set("last", x.empty() ? -1000LL : (long long)x.back().c);
+        o.set("sum", sum);
+        return o;
+      }
+      if (t == "gvs") {
+        std::vector<std::string> x; r >> x;
+        Json o = Json::object();
+        o.set("n", (long long)x.size());
+        o.set("eq", x == g.strs());
+        long long chars = 0;
+        for (auto &e : x) chars += (long long)e.size();
+        o.set("chars", chars);
+        return o;
+      }
+      if (t == "selfbuf") {
+        // the array read back must be the first n bytes of the stream it was written into
+        std::vector<uint8_t> x; r >> x;
+        Json o = Json::object();
+        o.set("n", (long long)x.size());
+        o.set("eq", x.size() == g.n && g.n <= r.buffer->size() && (g.n == 0 || std::memcmp(x.data(), r.buffer->begin(), g.n) == 0));
+        return o;
+      }
+      throw std::logic_error("driver: unknown formula-defined item type " + t);
+    }
+    if (t == "pod3") {
+      Pod3 p = {0, 0, 0}; r >> p;
+      Json a = Json::array();
+      a.push(Json((int)p.a)); a.push(Json((int)p.b)); a.push(Json((int)p.c));
+      return a;
+    }
+    if (t == "pod24") {
+      Pod24 p = {0, 0, 0}; r >> p;
+      Json a = Json::array();
+      const double d[3] = {p.a, p.b, p.c};
+      for (double x : d) {
+        double y = x * 8.0;
+        if (std::isfinite(y) && std::fabs(y) < 2e9 && y == std::floor(y)) a.push(Json((long long)y));
+        else a.push(Json("unmapped:" + std::to_string(x)));
+      }
+      return a;
+    }
+    if (t == "pod32a") {
+      Pod32a p; std::memset(&p, 0, sizeof p); r >> p;
+      Json a = Json::array();
+      a.push(Json((int)p.a)); a.push(Json((int)p.b));
+      return a;
+    }
+    if (t == "f64x") { double x = 0; r >> x; return nameOf(kF64, x); }
+    if (t == "f32x") { float x = 0; r >> x; return nameOf(kF32, x); }
+    if (t == "u64x") { uint64_t x = 0; r >> x; return nameOf(kU64, x); }
+    if (t == "i32x") { int32_t x = 0; r >> x; return nameOf(kI32, x); }
     if (t == "u8") { uint8_t &x = pU8; podDest(x, arg); r >> x; return Json((int)x); }
     if (t == "i32") { int32_t &x = pI32; podDest(x, arg); r >> x; return Json((int)x); }
     if (t == "u64") {
@@ -377,7 +616,7 @@ struct StreamWorld : IWorld
     if (t == "OwnedArray<int>" || t == "ArrayView<int>" || t == "FixedArray<int>" || t == "AbstractArray<int>&" || byteArr) {
       if (via == "view") {
         size_t n; r >> n;
-        return byteArr ? viewToVec<uint8_t>(n) : viewToVec<int>(n);
+        return byteArr ? arr(viewToVec<uint8_t>(n)) : arr(viewToVec<int>(n));
       }
       if (byteArr) { std::vector<uint8_t> &x = dest(sVb, arg); r >> x; return arr(x); }
       std::vector<int> &x = dest(sVi, arg); r >> x; return arr(x);
@@ -445,7 +684,7 @@ struct StreamWorld : IWorld
         FixedBufferWriter fw((size_t)arg["cap"].num());
         Json f = Json::object();
         try {
-          emit(arg["item"], fw);
+          emit(arg["item"], fw, snapshot.get());
           f.set("ret", "ok");
         } catch (const std::runtime_error &e) {
           if (std::string(e.what()).compare(0, 7, "driver:") == 0) throw;
@@ -458,6 +697,10 @@ struct StreamWorld : IWorld
       o.set("len", num(w.buffer->size() - before));
       o.set("total", num(w.buffer->size()));
       o.set("predicted", num(calc.writtenSize));
+      Json tw = Json::object();
+      tw.set("total", num(w2.buffer->size()));
+      tw.set("predicted", num(calc2.writtenSize));
+      o.set("twin", tw);
     } else if (a == "Open" || a == "OpenAll" || a == "OpenFrac") {
       // OpenAll: everything written; OpenFrac: the first pm/1000 of it (rounded down)
       const size_t total = w.buffer->size();
